@@ -70,30 +70,31 @@ fn one_case(cw: &mut CaseWriter, label: &str, m: &Model) {
     }));
 }
 
-/// every object with an "id" present after purging equals the object with that id before
+/// every object with an "id" present after purging equals the object with that id, in the same collection, before
+/// (ids are unique within a collection only: the key is the path of the collection plus the id)
 fn kept_items_identical(before: &Value, after: &Value) -> bool {
-    fn collect<'a>(v: &'a Value, out: &mut std::collections::HashMap<String, &'a Value>) {
+    fn collect<'a>(v: &'a Value, path: &str, out: &mut std::collections::HashMap<String, &'a Value>) {
         match v {
             Value::Object(o) => {
                 if let Some(Value::String(id)) = o.get("id") {
-                    out.insert(id.clone(), v);
+                    out.insert(format!("{path}#{id}"), v);
                 }
-                for (_, x) in o {
-                    collect(x, out);
+                for (k, x) in o {
+                    collect(x, &format!("{path}/{k}"), out);
                 }
             }
             Value::Array(a) => {
                 for x in a {
-                    collect(x, out);
+                    collect(x, path, out);
                 }
             }
             _ => {}
         }
     }
     let mut b = std::collections::HashMap::new();
-    collect(before, &mut b);
+    collect(before, "", &mut b);
     let mut a = std::collections::HashMap::new();
-    collect(after, &mut a);
+    collect(after, "", &mut a);
     a.iter().all(|(k, v)| b.get(k).map_or(false, |w| w == v))
         && before.get("meta") == after.get("meta")
         && before.get("overrides") == after.get("overrides")
